@@ -91,7 +91,7 @@ Section Inv.
     exec_stmt2 tys (TLoop id just rest body rs) b st e = Ok (st', e') ->
     exists jw rw jt rt st1 d st2 i st3 o st4 ts4 e5,
       get_wires e just = Ok jw /\ get_wires e rest = Ok rw /\ wire_types st jw = Ok jt /\ wire_types st rw = Ok rt /\
-      add_node st (TailLoop jt [] rt 0) (b_parent b) = Ok (st1, d) /\ add_node st1 (Input (jt ++ rt)) d = Ok (st2, i) /\
+      add_node st (TailLoop (jt ++ rt) [] [] (lenN jt)) (b_parent b) = Ok (st1, d) /\ add_node st1 (Input (jt ++ rt)) d = Ok (st2, i) /\
       add_node st2 (Output []) d = Ok (st3, o) /\ wire_up st3 d (jw ++ rw) = Ok (st4, ts4) /\
       exec_region2 tys body (mkb d i o) st4 e = Ok (st', e5) /\
       e' = bind_outs (bind_stmt e5 id d) d rs.
@@ -178,7 +178,7 @@ Section Inv.
   Lemma exec_QLoop_inv just rest body e st' e' :
     exec_prog2 tys (QLoop just rest body) e = Ok (st', e') ->
     exec_region2 tys body (mkb 0 1 2)
-      {| s_nodes := [mk (TailLoop just [] rest 0) 0; mk (Input (just ++ rest)) 0; mk (Output []) 0]; s_links := [] |} e
+      {| s_nodes := [mk (TailLoop (just ++ rest) [] [] (lenN just)) 0; mk (Input (just ++ rest)) 0; mk (Output []) 0]; s_links := [] |} e
       = Ok (st', e').
   Proof. rewrite exec_prog2_QLoop. cbn. auto. Qed.
   Lemma exec_QCond_inv rows others sumty cs e st' e' :
